@@ -83,5 +83,35 @@ Definition ll_residual (f : vec) (F : fcrs) (x : vec) (r : vec) : res vec :=
     fi <- rd f i ;;
     wr r i (fi - sum)) r.
 
+(* crs(nrows, ncols, ptr_range, col_range, val_range), crs(const crs&), operator=(const crs&)
+   (amgcl/backend/builtin.hpp:87-179, 187-220): the arrays come from new T[..] -- explicit
+   junk inputs jp, jc, jv -- and are filled row by row:
+       ptr[0] = pr[0];
+       for (i < n) { ptr[i+1] = pr[i+1]; for (j = pr[i]; j < pr[i+1]; ++j) { col[j] = cr[j]; val[j] = vr[j]; } } *)
+Definition ll_crs_copy (n : nat) (pr cr : list nat) (vr : vec) (jp jc : list nat) (jv : vec)
+  : res (list nat * (list nat * vec)) :=
+  p0 <- rd pr 0 ;;
+  ptr0 <- wr jp 0 p0 ;;
+  for_res 0 n (fun i st =>
+    e <- rd pr (i + 1) ;;
+    ptr <- wr (fst st) (i + 1) e ;;
+    b <- rd pr i ;;
+    cv <- for_res b (e - b) (fun j cv =>
+            c <- rd cr j ;;
+            col <- wr (fst cv) j c ;;
+            v <- rd vr j ;;
+            val <- wr (snd cv) j v ;;
+            Ok (col, val)) (snd st) ;;
+    Ok (ptr, cv)) (ptr0, (jc, jv)).
+
+(* the source ranges are valid CRS arrays (the preconditions the constructor checks, plus
+   monotonicity) and the fresh arrays have the sizes of the new[] expressions *)
+Definition copy_wf (n : nat) (pr cr : list nat) (vr : vec) (jp jc : list nat) (jv : vec) : Prop :=
+  length pr = Datatypes.S n /\
+  nth 0 pr 0%nat = 0%nat /\
+  (forall i, i < n -> nth i pr 0%nat <= nth (Datatypes.S i) pr 0%nat) /\
+  nth n pr 0%nat = length cr /\ length vr = length cr /\
+  length jp = Datatypes.S n /\ length jc = length cr /\ length jv = length cr.
+
 End LowLevel.
 Arguments fcrs : clear implicits.
